@@ -35,13 +35,13 @@ def Table.rectB (t : Table) : Bool := t.rows.all fun r => r.length == t.header.l
 /-- csvq's errors on the DML paths (lib/query/error_code.go) -/
 inductive Err
   | fieldAmbiguous | fieldNotExist | dupField | rowLen | selLen | updFieldNotExist | ambiguous
-  | keyNotSet | divZero | noTable | tableExists | other (code : Nat)
+  | keyNotSet | divZero | noTable | tableExists | tableFieldLen | other (code : Nat)
   deriving DecidableEq, Repr, Inhabited
 
 def Err.code : Err → Nat
   | .fieldAmbiguous => 10101 | .fieldNotExist => 10102 | .dupField => 10104 | .rowLen => 12101
   | .selLen => 12102 | .updFieldNotExist => 12201 | .ambiguous => 12202 | .keyNotSet => 13901
-  | .divZero => 30000 | .noTable => 11502 | .tableExists => 90182 | .other c => c
+  | .divZero => 30000 | .noTable => 11502 | .tableExists => 90182 | .tableFieldLen => 11401 | .other c => c
 
 def isT : Tern → Bool
   | .T => true
@@ -389,7 +389,8 @@ inductive Stmt
   | addCols (tbl : String) (pos : ColPos) (cols : List (String × Option (Row → Except Err Cell)))
   | dropCols (tbl : String) (cols : List String)
   | rename (tbl : String) (old new : String)
-  | create (tbl : String) (cols : List String)
+  /-- CREATE TABLE tbl (cols) [AS SELECT …]: `query` = the SELECT's field count and its records -/
+  | create (tbl : String) (cols : List String) (query : Option (Nat × (Tables → List (Except Err Row))))
 
 def getCopies (ts : Tables) : List String → Except Err (List Table)
   | [] => .ok []
@@ -449,6 +450,12 @@ def deleteTargets (ts : Tables) (froms : List String) (view : List JRow) : List 
 def allDistinct : List String → Bool
   | [] => true
   | n :: ns => !(ns.contains n) && allDistinct ns
+
+/-- the records of a SELECT: the first failing evaluation aborts -/
+def allOk : List (Except Err Row) → Except Err (List Row)
+  | [] => .ok []
+  | .error e :: _ => .error e
+  | .ok r :: rest => match allOk rest with | .error e => .error e | .ok rs => .ok (r :: rs)
 
 /-- the DML body: works on copies obtained from the view map, returns what is to be published -/
 def body (ts : Tables) : Stmt → Except Err (List Out)
@@ -512,12 +519,22 @@ def body (ts : Tables) : Stmt → Except Err (List Out)
       match renameColumnImpl old new t with
       | .error e => .error e
       | .ok t' => .ok [{ name := tbl, table := t', count := 1, mark := true }]
-  | .create tbl cols =>
+  | .create tbl cols query =>
     match lookupT ts tbl with
     | some _ => .error .tableExists
     | none =>
-      if allDistinct cols then .ok [{ name := tbl, table := { header := cols, rows := [] }, count := 0, mark := true, isNew := true }]
-      else .error .dupField
+      match query with
+      | none =>
+        if allDistinct cols then .ok [{ name := tbl, table := { header := cols, rows := [] }, count := 0, mark := true, isNew := true }]
+        else .error .dupField
+      | some (width, src) =>
+        match allOk (src ts) with
+        | .error e => .error e
+        | .ok rows =>
+          if width ≠ cols.length then .error .tableFieldLen
+          else if allDistinct cols then
+            .ok [{ name := tbl, table := { header := cols, rows := rows }, count := 0, mark := true, isNew := true }]
+          else .error .dupField
 
 inductive Result
   | ok (counts : List (String × Nat))
@@ -538,7 +555,7 @@ def stmtImpl (s : State) (st : Stmt) : State × Result :=
   | .error e => (s, .error e)
   | .ok outs =>
     ({ s with tables := publish s.tables outs, marks := markAll s.marks outs },
-     .ok (outs.map fun o => (o.name, o.count)))
+     .ok ((outs.filter fun o => !o.isNew).map fun o => (o.name, o.count)))
 
 /-- COMMIT: every marked table is written (file) / gets a restore point (temporary table) -/
 def commitTables (tables committed : Tables) : List String → Tables
